@@ -65,8 +65,18 @@ def static_values(func, name, at, depth=0):
             return None
     a = func.node.args
     if any(x.arg == name.id for x in a.posonlyargs + a.args + a.kwonlyargs) or (a.vararg and a.vararg.arg == name.id) or (a.kwarg and a.kwarg.arg == name.id):
-        return None
+        parent = getattr(func, "parent", None)
+        if parent is None or binders:
+            return None
+        return _nested_param_values(parent.node, func.node, name.id)
     if not binders:
+        # a parameter of a nested def (the enclosing function is analysed as a whole, nested bodies included)
+        for d in ast.walk(func.node):
+            if isinstance(d, ast.FunctionDef) and d is not func.node:
+                da = d.args
+                if any(x.arg == name.id for x in da.posonlyargs + da.args) or (da.vararg and da.vararg.arg == name.id):
+                    if any(x is at for x in ast.walk(d)) or at is None:
+                        return _nested_param_values(func.node, d, name.id)
         # a module-level constant bound once
         defs = [st.value for st in func.module.tree.body if isinstance(st, ast.Assign) and any(isinstance(t, ast.Name) and t.id == name.id for t in st.targets)]
         return [defs[0]] if len(defs) == 1 else None
@@ -93,6 +103,30 @@ def static_values(func, name, at, depth=0):
     return out
 
 
+def _nested_param_values(parent_node, fn, pname):
+    """What the call sites inside `parent_node` pass for parameter `pname` of the nested def `fn` (only called by name)."""
+    a = fn.args
+    uses = [n for n in ast.walk(parent_node) if isinstance(n, ast.Name) and n.id == fn.name and isinstance(n.ctx, ast.Load)]
+    calls = [c for c in ast.walk(parent_node) if isinstance(c, ast.Call) and isinstance(c.func, ast.Name) and c.func.id == fn.name]
+    if not calls or len(uses) != len(calls):
+        return None   # the function also escapes as a value
+    pos = [x.arg for x in a.posonlyargs + a.args]
+    out = []
+    for c in calls:
+        if any(isinstance(x, ast.Starred) for x in c.args) or any(k.arg is None for k in c.keywords):
+            return None
+        if a.vararg and a.vararg.arg == pname:
+            out.append(ast.copy_location(ast.Tuple(elts=list(c.args[len(pos):]), ctx=ast.Load()), c))
+        elif pname in pos and pos.index(pname) < len(c.args):
+            out.append(c.args[pos.index(pname)])
+        else:
+            kw = next((k.value for k in c.keywords if k.arg == pname), None)
+            if kw is None:
+                return None
+            out.append(kw)
+    return out
+
+
 def _target_path(target, ident):
     if isinstance(target, ast.Name):
         return () if target.id == ident else None
@@ -113,7 +147,7 @@ def _elements(func, it, at, depth):
             return None
         out = []
         for v in vals:
-            els = _elements(func, v, at, depth + 1) if isinstance(v, (ast.Tuple, ast.List)) else None
+            els = _elements(func, v, at, depth + 1) if isinstance(v, (ast.Tuple, ast.List, ast.Name)) and depth < 4 else None
             if els is None:
                 return None
             out += els
@@ -226,15 +260,34 @@ class Effects:
         # read on behalf of the function
         mod = func.module
         consulted = {n.id for n in ast.walk(func.node) if isinstance(n, ast.Name) and isinstance(n.ctx, ast.Load) and n.id in getattr(mod, "toplevel_names", ())}
+        top = {}
         for st0 in mod.tree.body:
-            if isinstance(st0, ast.Assign) and any(isinstance(t, ast.Name) and t.id in consulted for t in st0.targets):
-                for lam in ast.walk(st0.value):
-                    if isinstance(lam, ast.Lambda):
-                        for n in ast.walk(lam.body):
-                            if isinstance(n, ast.Attribute) and isinstance(n.ctx, ast.Load):
-                                effs.append(Effect("read", None, n.attr, n, n.value, func))
-                    elif isinstance(lam, ast.Name) and lam.id in self.repo.functions and lam.id not in consulted:
-                        calls.append(CallSite(st0, [self.repo.functions[lam.id]], True, func))
+            if isinstance(st0, ast.Assign):
+                for t in st0.targets:
+                    if isinstance(t, ast.Name):
+                        top[t.id] = st0
+        done, todo = set(), sorted(consulted)
+        while todo:
+            nm = todo.pop()
+            if nm in done or nm not in top:
+                continue
+            done.add(nm)
+            st0 = top[nm]
+            for lam in ast.walk(st0.value):
+                if isinstance(lam, ast.Lambda):
+                    for n in ast.walk(lam.body):
+                        if isinstance(n, ast.Attribute) and isinstance(n.ctx, ast.Load):
+                            effs.append(Effect("read", None, n.attr, n, n.value, func))
+                elif isinstance(lam, ast.Call) and ast.unparse(lam.func) in ("attrgetter", "operator.attrgetter"):
+                    # attrgetter("a.b") reads .a and .b of whatever it is applied to
+                    for a0 in lam.args:
+                        if isinstance(a0, ast.Constant) and isinstance(a0.value, str):
+                            for seg in a0.value.split("."):
+                                effs.append(Effect("read", None, seg, lam, lam, func))
+                elif isinstance(lam, ast.Name) and lam.id in self.repo.functions and lam.id not in consulted:
+                    calls.append(CallSite(st0, [self.repo.functions[lam.id]], True, func))
+                elif isinstance(lam, ast.Name) and lam.id in top and lam.id not in done:
+                    todo.append(lam.id)   # a table entry that is itself a module-level name (a key bound first, then listed)
         self.by_func[id(func.node)] = effs
         self.calls[id(func.node)] = calls
 
@@ -249,6 +302,17 @@ class Effects:
                     if isinstance(t, ast.Name):
                         counts[t.id] = counts.get(t.id, 0) + 1
                         val[t.id] = n.value
+                    elif isinstance(t, (ast.Tuple, ast.List)):
+                        # `a, b = x.p, x.q`: element-wise, like two assignments
+                        pairs = zip(t.elts, n.value.elts) if isinstance(n.value, (ast.Tuple, ast.List)) and len(n.value.elts) == len(t.elts) else ((x, None) for x in t.elts)
+                        for tg, v in pairs:
+                            for x in ast.walk(tg):
+                                if isinstance(x, ast.Name) and isinstance(x.ctx, ast.Store):
+                                    counts[x.id] = counts.get(x.id, 0) + 1
+                                    if x is tg and v is not None:
+                                        val[x.id] = v
+                                    else:
+                                        counts[x.id] += 1   # bound by unpacking something that is not written out: not a pure alias
             elif isinstance(n, ast.AugAssign):
                 for x in ast.walk(n.target):
                     if isinstance(x, ast.Name):
